@@ -1,14 +1,31 @@
 import GoImap.Model.Framing
+import GoImap.Lemmas.FramingEvs
+import GoImap.Lemmas.FramingDepth
 /-
   C06 — the server survives arbitrary input and disconnects, cleaning up exactly once.
+  All statements are about `Framing.serve cfg inp` (Model/Framing.lean), the mirror of the repaired
+  server, for every configuration and EVERY octet stream `inp`; the client disconnects where the
+  stream ends, so a cut at offset k is the stream `inp.take k`.
 
-  Proved here (about Model/Framing.lean):
-    * literal_buffers_at_most_4096   Decoder.Literal with the server's check buffers n octets only if n ≤ 4096
-    * raw_line_within_input          a raw SASL/DONE line never consumes more than the stream holds
-  Validated by the oracle on every run, not proved: no panic report in the server log, the session
-  closed exactly once, the connection dropped from Server.conns and the goroutine count back to its
-  baseline after the client left (every corpus transcript cut at every offset), survival of the
-  depth probes in a child process with a 16 MiB stack.
+  Proved:
+    * total_and_closed       for every stream and every cut point the run ends with the epilogue of
+                             Conn.serve (`close`: session.Close, removal from Server.conns, conn.Close)
+                             exactly once and as the last event, or the model gave up on a command
+                             outside its table (`opaque`) without closing; the command loop never runs
+                             out of fuel (the model is total).
+    * buffered_literal_cap   every literal buffered in memory has at most 4096 octets
+    * append_cap             every APPEND literal the server accepts has at most 104857600 octets …
+    * append_refused_unread  … and a larger one is refused right after its header: no octet of the
+                             payload is consumed, no "+" is written
+    * depth_bounded          the recursive parsers (parenthesised lists, search keys incl. NOT/OR) never
+                             run more than 2000 Go frames deep (1000 lists + 1000 NOT/OR)
+    * legacy_depth_unbounded before the repair of F08 the NOT chain NOT^n ALL drove readSearchKey n+1
+                             deep, for every n (the counterexample to depth_bounded for Legacy)
+    * literal_buffers_at_most_4096, raw_line_within_input   function-level facts used by the above
+  Not proved (validated by the tie and the oracle on every run): the inner loops of the model
+  (ENABLE arguments, flag lists, search keys) never exhaust their fuel — the driver reports a `fuel`
+  event as a disagreement; no panic report in the real server's log, Close() count, tracked
+  connections and goroutine count of the real server (runtime facts), survival of the depth probes.
 -/
 namespace GoImap.C06
 open GoImap.Framing
@@ -24,11 +41,7 @@ theorem literal_buffers_at_most_4096 (cfg : Cfg) (s : S) (v : List Nat) (s' : S)
     · split at h <;> simp at h
     · rename_i s2 hc
       simp only [Prod.mk.injEq, Option.some.injEq] at h
-      have hn : n ≤ 4096 := by
-        unfold checkBufferedLiteral at hc
-        by_cases hgt : n > maxBuffered
-        · simp [hgt] at hc
-        · simpa [maxBuffered] using hgt
+      have hn : n ≤ 4096 := checkBufferedLiteral_ok hc
       have hv : v = (s2.payload n).1 := h.1.symm
       subst hv
       simp only [S.payload, List.length_take]
@@ -63,5 +76,99 @@ theorem raw_line_within_input (fx : Fixes) (inp line : List Nat) (long : Bool) (
         omega
       · simp only [Option.some.injEq, Prod.mk.injEq] at h
         split at h <;> omega
+
+/-- A literal is buffered in memory only if it is at most 4096 octets: for every configuration
+    (LITERAL+ or not, any state) and every client stream. -/
+theorem buffered_literal_cap (cfg : Cfg) (inp : List Nat) (n : Nat)
+    (h : Event.buffered n ∈ serve cfg inp) : n ≤ 4096 := by
+  rcases serve_good cfg inp _ h with h0 | hg
+  · cases h0
+  · exact hg
+
+/-- an APPEND literal the server accepts ("+" written, or payload read for a non-synchronising one)
+    is within the append limit -/
+theorem append_cap (cfg : Cfg) (inp : List Nat) (n : Nat)
+    (h : Event.appendLit n true ∈ serve cfg inp) : n ≤ 104857600 := by
+  rcases serve_good cfg inp _ h with h0 | hg
+  · cases h0
+  · exact hg
+
+/-- an APPEND over the limit is refused before any payload octet is read: right after the literal
+    header the handler returns NO; the state is the one after the header (nothing consumed, no "+") -/
+theorem append_refused_unread (cfg : Cfg) (m : List Nat) (s s2 : S) (n : Nat) (ns : Bool)
+    (hr : s.literalReader cfg.fx = (some (n, ns), s2)) (hn : n > 104857600) :
+    appendLiteral cfg m s = (some .no, s2.emit (.appendLit n false)) := by
+  unfold appendLiteral
+  rw [hr]
+  simp [appendLimit, hn]
+
+/-- list nesting and NOT/OR nesting are bounded: no recursive parser of the repaired server runs
+    more than 2000 frames deep, whatever the client sends -/
+theorem depth_bounded (cfg : Cfg) (inp : List Nat) (hfix : cfg.fx.depth = true) :
+    depthOf cfg inp ≤ 2000 := by
+  unfold depthOf
+  apply foldl_depth_le 2000 _ 0 (by omega)
+  intro n hn
+  rcases serve_good cfg inp _ hn with h0 | hg
+  · cases h0
+  · exact hg hfix
+
+/-- For every stream and every cut point: the run ends with the epilogue of Conn.serve exactly
+    once, as its last event — or the model stopped at a command outside its table and claims
+    nothing. The command loop never runs out of fuel. -/
+theorem total_and_closed (cfg : Cfg) (inp : List Nat) (k : Nat) :
+    let evs := serve cfg (inp.take k)
+    Event.fuel 0 ∉ evs ∧
+    ((evs.getLast? = some .close ∧ evs.count .close = 1) ∨
+     (Event.opaque ∈ evs ∧ Event.close ∉ evs)) := by
+  intro evs
+  have hgood := serve_good cfg (inp.take k)
+  refine ⟨fun h => ?_, ?_⟩
+  · rcases hgood _ h with h0 | hg
+    · cases h0
+    · exact hg
+  · show ((serve cfg (inp.take k)).getLast? = some .close ∧ (serve cfg (inp.take k)).count .close = 1) ∨ _
+    unfold serve
+    rcases run_end cfg (inp.take k) with ⟨s1, h, hr⟩ | ⟨h, ho⟩
+    · left
+      have hnc : Event.close ∉ s1.evs := by
+        intro hc
+        rcases h.good _ hc with h0 | hg
+        · simp [initial] at h0
+        · exact hg
+      rw [hr]
+      simp only [S.emit, List.reverse_cons, List.getLast?_append, List.getLast?_singleton,
+        Option.some_or, List.count_append, List.count_reverse, List.count_singleton_self, true_and]
+      have : List.count Event.close s1.evs = 0 := List.count_eq_zero.mpr hnc
+      omega
+    · right
+      have hnc : Event.close ∉ (run cfg (inp.take k)).evs := by
+        intro hc
+        rcases h.good _ hc with h0 | hg
+        · simp [initial] at h0
+        · exact hg
+      show Event.opaque ∈ (run cfg (inp.take k)).evs.reverse ∧ Event.close ∉ (run cfg (inp.take k)).evs.reverse
+      refine ⟨?_, by simpa using hnc⟩
+      rw [List.mem_reverse]
+      cases hev : (run cfg (inp.take k)).evs with
+      | nil => simp [hev] at ho
+      | cons a t => simp [hev] at ho; simp [ho]
+
+/-- F08, the behaviour before the repair: on `NOT NOT … NOT ALL` (n times) readSearchKey ran n
+    levels below its entry, for every n — so no bound c makes `depth_bounded` true of Legacy. -/
+theorem legacy_depth_unbounded (plus preauth : Bool) (n : Nat) (tail : List Nat) :
+    Event.depthAt (1 + n) ∈
+      (searchKey { plus := plus, preauth := preauth, fx := Fixes.none } (2 * n + 2) 0 1
+        { inp := notChain n ++ 13 :: tail }).2.evs :=
+  legacy_not_chain _ rfl n _ 0 1 _ tail rfl rfl (Nat.le_refl _)
+
+/-- `s SELECT m⏎d SEARCH NOT^30 ALL⏎` as a whole run -/
+def notProbe30 : List Nat :=
+  [115,32,83,69,76,69,67,84,32,109,13,10, 100,32,83,69,65,82,67,72,32] ++ notChain 30 ++ [13,10]
+
+/-- a whole Legacy run: depth 31 for 30 NOTs (the repaired server stays at 31 here too; it differs
+    from 1001 NOTs on, see depth_bounded) -/
+theorem legacy_depth_run_example :
+    depthOf { plus := false, preauth := true, fx := Fixes.none } notProbe30 = 31 := by decide +kernel
 
 end GoImap.C06
